@@ -273,6 +273,41 @@ let () =
     | [s] -> show_res hex_of_bytes (decrypt_pkg (fun x -> x) (bytes_of_hex s))
     | _ -> "bad-args")
 
+(* ---- C12 part locations and temp files ---- *)
+let () =
+  reg "c12.run" (fun a ->
+    (* <xmlLimit> <class,key,size>... | <ops...> *)
+    match a with
+    | lim :: rest ->
+      let rec split acc = function
+        | "|" :: ops -> (List.rev acc, ops)
+        | x :: tl -> split (x :: acc) tl
+        | [] -> (List.rev acc, []) in
+      let (parts, ops) = split [] rest in
+      let parts = List.map (fun t -> match String.split_on_char ',' t with
+        | [c; k; sz] -> { p_class = z_of_string c; p_key = z_of_string k; p_size = z_of_string sz }
+        | _ -> failwith ("bad part " ^ t)) parts in
+      (* the size limit is not what this request is about: take it large *)
+      (match open_with (z_of_string lim) (z_of_string "4611686018427387904") parts with
+       | None -> "rejected"
+       | Some s ->
+         let nat_len l = List.length l in
+         let out = ref [string_of_int (nat_len s.fs)] in
+         let st = List.fold_left (fun st t ->
+           let n = String.length t in
+           let o = (match t.[0] with
+             | 'W' -> FSave
+             | 'S' -> FSetStr (z_of_string (String.sub t 1 (n - 1)))
+             | 'N' -> FSetNum (z_of_string (String.sub t 1 (n - 1)))
+             | 'G' -> FGet (z_of_string (String.sub t 1 (n - 2)), t.[n - 1] = 't')
+             | 'R' -> FRows (z_of_string (String.sub t 1 (n - 2)), t.[n - 1] = 't')
+             | _ -> failwith ("bad fop " ^ t)) in
+           let st' = fstep st o in
+           out := string_of_int (nat_len st'.fs) :: !out; st') s ops in
+         out := string_of_int (nat_len (close st).fs) :: !out;
+         String.concat " " (List.rev !out))
+    | _ -> "bad-args")
+
 (* ---- C11 stream writer ---- *)
 let parse_sval (t : string) : sval option =
   if t = "_" then None else
